@@ -27,6 +27,10 @@ class QueueAnalysis:
         if len(m) != 1 or len(t) != 1:
             raise AnchorError("OrderQueue: expected exactly one DashMap field and one SegQueue field")
         self.map_field, self.ticket_field = m[0], t[0]
+        # the map may store the order directly or wrapped in a crate struct with exactly one order-typed field
+        # (`QueuedOrder { ticket, order }`); a ticket may be the id or a tuple / struct with exactly one id component
+        self.vproj = self._order_field_of(self._generic_args(self.map_field["ty"])[-1:], "OrderType")
+        self.tproj = self._order_field_of(self._generic_args(self.ticket_field["ty"])[-1:], "OrderId")
         self._cache = {}
         self.inplace_updaters = set()
 
@@ -45,6 +49,68 @@ class QueueAnalysis:
             w = self.walker()
             self._cache[key] = (b, w.walk(b), w.stats)
         return self._cache[key]
+
+    @staticmethod
+    def _generic_args(ty):
+        """top-level generic arguments of `Path<A, B>`"""
+        i = ty.find("<")
+        if i < 0:
+            return []
+        inner, depth, cur, out = ty[i + 1:ty.rfind(">")], 0, "", []
+        for ch in inner:
+            if ch in "<(":
+                depth += 1
+            elif ch in ">)":
+                depth -= 1
+            if ch == "," and depth == 0:
+                out.append(cur.strip())
+                cur = ""
+            else:
+                cur += ch
+        if cur.strip():
+            out.append(cur.strip())
+        return out
+
+    def _order_field_of(self, tys, what):
+        """None when the type *is* the thing (Arc<OrderType>, OrderId); else the name of the single field / tuple index
+        of a wrapper that holds it; raises if ambiguous"""
+        if not tys:
+            return None
+        ty = tys[0]
+        bare = ty.replace(" ", "")
+        if what == "OrderType" and (bare.startswith("std::sync::Arc<") or bare.startswith("alloc::sync::Arc<")) and "OrderType" in bare:
+            return None
+        if what == "OrderId" and bare.endswith("OrderId") and "(" not in bare:
+            return None
+        if bare.startswith("("):
+            comps = self._generic_args("T<" + bare[1:-1] + ">")
+            idx = [i for i, c in enumerate(comps) if what in c]
+            if len(idx) == 1:
+                return str(idx[0])
+            raise AnchorError("OrderQueue: cannot locate the %s component of %s" % (what, ty))
+        a = [x for d, x in self.db.adts.items() if d == bare or bare.endswith("::" + d.split("::")[-1]) and d.split("::")[-1] == bare.split("::")[-1].split("<")[0]]
+        if len(a) == 1 and a[0]["kind"] == "struct":
+            fs = [f["name"] for f in a[0]["variants"][0]["fields"] if what in f["ty"]]
+            if len(fs) == 1:
+                return fs[0]
+        raise AnchorError("OrderQueue: cannot locate the %s inside %s" % (what, ty))
+
+    def order_of(self, v):
+        """the order stored in a map value term"""
+        if self.vproj is None:
+            return v
+        if isinstance(v, tuple) and v[0] == "agg":
+            return dict(v[3]).get(self.vproj)
+        return ("field", v, None, self.vproj)
+
+    def id_of_ticket(self, t):
+        if self.tproj is None:
+            return t
+        if isinstance(t, tuple) and t[0] == "tuple" and self.tproj.isdigit() and int(self.tproj) < len(t[1]):
+            return t[1][int(self.tproj)]
+        if isinstance(t, tuple) and t[0] == "agg":
+            return dict(t[3]).get(self.tproj)
+        return ("field", t, None, self.tproj)
 
     @staticmethod
     def field_of(ref):
@@ -89,13 +155,14 @@ class QueueAnalysis:
             v = r.facts.variant.get(order)
             idf = self.ctx.roles.id_field.get(v) if v else None
             want = ("field", order, v, idf) if idf else None
-            chk.require(val == order and key == want and tid == want, rid_pair, b.defp + ":same-id", b.span,
+            chk.require(self.order_of(val) == order and key == want and self.id_of_ticket(tid) == want, rid_pair, b.defp + ":same-id", b.span,
                         "insert(%s, %s) / ticket(%s): expected the order and its own id" % (short(key), short(val), short(tid)), describe_path(r))
             chk.require(self.field_of(ins[0][2][0]) == self.map_field["name"] and self.field_of(tk[0][2][0]) == self.ticket_field["name"],
                         rid_pair, b.defp + ":own-fields", b.span, "push does not use the queue's own map/ticket fields")
             # publish order: the map insert precedes the ticket append
             pos = {id(e): i for i, e in enumerate(r.trace)}
-            chk.require(pos[id(ins[0])] < pos[id(tk[0])], rid_order, b.defp + ":insert-before-ticket", tk[0][5],
+            if rid_order is not None:
+              chk.require(pos[id(ins[0])] < pos[id(tk[0])], rid_order, b.defp + ":insert-before-ticket", tk[0][5],
                         "the ticket is appended before the order is in the map: a concurrent pop would discard the ticket and strand the order",
                         describe_path(r))
         chk.require(n >= 1, rid_pair, b.defp + ":analysed", b.span, "no return path")
@@ -119,7 +186,7 @@ class QueueAnalysis:
                 ok = last_t is not None and r.facts.variant.get(last_t[3]) == "Some"
                 chk.require(ok, rid_term, b.defp + ":retry-consumes-ticket", b.span,
                             "the loop continues without having consumed a ticket", describe_path(r))
-                rem = [e for e in mp if e[1] == "MAP.remove"]
+                rem = [e for e in mp if e[1] in ("MAP.remove", "MAP.remove_if")]
                 ok2 = len(rem) >= 1 and r.facts.variant.get(rem[-1][3]) == "None"
                 if seq and not ok2:
                     gets = [e for e in mp if e[1] == "MAP.get"]
@@ -137,8 +204,8 @@ class QueueAnalysis:
             if var == "Some":
                 kinds["some"] += 1
                 payload = dict(v[3])["0"] if isinstance(v, tuple) and v[0] == "agg" else None
-                rem = [e for e in mp if e[1] == "MAP.remove"]
-                ok = payload is not None and len(rem) >= 1 and payload == ("field", ("field", rem[-1][3], "Some", "0"), None, "1")
+                rem = [e for e in mp if e[1] in ("MAP.remove", "MAP.remove_if")]
+                ok = payload is not None and len(rem) >= 1 and payload == self.order_of(("field", ("field", rem[-1][3], "Some", "0"), None, "1"))
                 if seq and not ok and payload is not None and rem:
                     # sequentially, get(k) followed by remove(k) yields the same entry
                     gets = [e for e in mp if e[1] == "MAP.get"]
@@ -152,10 +219,10 @@ class QueueAnalysis:
                     # key argument as seen at call time (a reference to a local holding the ticket payload)
                     kv = rem[-1][7][1] if len(rem[-1]) > 7 else None
                     kv = kv[1] if isinstance(kv, tuple) and kv[0] == "refval" else kv
-                    okk = kv == tpay
+                    okk = kv == self.id_of_ticket(tpay)
                     chk.require(okk, rid_fifo, b.defp + ":removes-popped-ticket", b.span,
                                 "pop removes key %s, not the ticket it just took" % short(kref), describe_path(r))
-                others = [e for e in mp if e[1] not in (("MAP.remove", "MAP.get") if seq else ("MAP.remove",))]
+                others = [e for e in mp if e[1] not in (("MAP.remove", "MAP.remove_if", "MAP.get") if seq else ("MAP.remove", "MAP.remove_if"))]
                 chk.require(not others, rid_handout, b.defp + ":no-other-map-ops", b.span, "pop also performs %s" % [e[1] for e in others])
             elif var == "None":
                 kinds["none"] += 1
@@ -168,6 +235,14 @@ class QueueAnalysis:
         chk.require(kinds["some"] >= 1 and kinds["none"] >= 1 and kinds["retry"] >= 1, rid_fifo, b.defp + ":shape", b.span,
                     "pop paths: %s (expected a hit, an exhausted-queue exit and a skip-stale-ticket retry)" % kinds)
 
+    def _key_is(self, r, e, want):
+        k = e[7][1] if len(e) > 7 and len(e[7]) > 1 else None
+        while isinstance(k, tuple) and k and k[0] == "refval":
+            k = k[1]
+        if k is None and isinstance(e[2][1], tuple) and e[2][1][0] == "ref":
+            k = self.walker()._read(r.state, e[2][1][1])
+        return k == want
+
     def _same_key(self, r, e1, e2):
         def keyval(e):
             # argument values as seen at call time (shared refs to locals are recorded by value)
@@ -178,8 +253,10 @@ class QueueAnalysis:
         a, b = keyval(e1), keyval(e2)
         return a is not None and a == b
 
-    def rule_remove_find(self, chk, rid):
-        """K4: remove hands out the payload of MAP.remove(id); find/to_vec hand out clones from MAP.get/iter"""
+    def rule_remove_find(self, chk, rid, seq=False):
+        """K4: remove hands out the payload of MAP.remove(id); find/to_vec hand out clones from MAP.get/iter.
+        seq=True (single-threaded properties): a lookup of the id followed by the removal of the same key, handing
+        out the value looked up, is the same thing."""
         b, res, _ = self.paths("remove")
         for r in res:
             if r.kind != "return":
@@ -187,6 +264,19 @@ class QueueAnalysis:
                 continue
             mp = [e for e in self.effs(r, "MAP")]
             tk = self.effs(r, "TICKET")
+            if seq and len(mp) == 2 and mp[0][1] == "MAP.get" and mp[1][1] == "MAP.remove" and self._same_key(r, mp[0], mp[1]) \
+                    and self._key_is(r, mp[1], ("param", 2)):
+                # sequentially get(k) then remove(k) yield the same entry: what is handed out must be the value looked up
+                v = r.value
+                got = dict(v[3]).get("0") if isinstance(v, tuple) and v[0] == "agg" and v[2] == "Some" else None
+                okv = got is not None and eff_in(got, "MAP.get") == mp[0][3]
+                chk.require(okv, rid, b.defp + ":hands-out-removed-entry", b.span, "remove returns %s, not the entry it looked up and removed" % short(v), describe_path(r))
+                continue
+            if seq and len(mp) == 1 and mp[0][1] == "MAP.get" and r.facts.variant.get(mp[0][3]) == "None":
+                v = r.value
+                isnone = (isinstance(v, tuple) and v[0] == "agg" and v[2] == "None")
+                chk.require(isnone, rid, b.defp + ":none-on-miss", b.span, "remove returns %s on a miss" % short(v), describe_path(r))
+                continue
             ok = len(mp) == 1 and mp[0][1] == "MAP.remove"
             chk.require(ok, rid, b.defp + ":one-map-remove", b.span, "remove performs %s" % [e[1] for e in mp], describe_path(r))
             if not ok:
@@ -198,7 +288,7 @@ class QueueAnalysis:
             res_t = mp[0][3]
             v = r.value
             if r.facts.variant.get(res_t) == "Some":
-                want = ("field", ("field", res_t, "Some", "0"), None, "1")
+                want = self.order_of(("field", ("field", res_t, "Some", "0"), None, "1"))
                 got = dict(v[3]).get("0") if isinstance(v, tuple) and v[0] == "agg" and v[2] == "Some" else None
                 chk.require(got == want, rid, b.defp + ":hands-out-removed-entry", b.span,
                             "remove returns %s, not the entry taken out of the map" % short(v), describe_path(r))
@@ -221,7 +311,7 @@ class QueueAnalysis:
         cg = self.ctx.cg
         allowed = {
             ("MAP", "insert"): {"push"}, ("TICKET", "push"): {"push"}, ("TICKET", "pop"): {"pop"},
-            ("MAP", "remove"): {"pop", "remove"},
+            ("MAP", "remove"): {"pop", "remove"}, ("MAP", "remove_if"): {"pop"},
         }
         n = 0
         for d, effs in cg.direct.items():
